@@ -68,6 +68,18 @@ Definition tc_simple (i : instr) (s : sty) : option sty :=
   | I_UNPAIR => match s with TPair a b :: r => Some (a :: b :: r) | _ => None end
   | I_CAR => match s with TPair a _ :: r => Some (a :: r) | _ => None end
   | I_CDR => match s with TPair _ b :: r => Some (b :: r) | _ => None end
+  | I_PAIRN n => if (2 <=? n) && (n <=? length s)
+                 then option_map (fun t => t :: skipn n s) (ty_comb (firstn n s)) else None
+  | I_UNPAIRN n => match s with
+                   | t :: r => if 2 <=? n then option_map (fun l => l ++ r) (ty_uncomb n t) else None
+                   | [] => None
+                   end
+  (* the Michelson rules accept GET 0 / UPDATE 0 on any type; pytezos insists on a pair operand, so the fragment does too *)
+  | I_GETN k => match s with TPair a b :: r => option_map (fun t => t :: r) (ty_get_n k (TPair a b)) | _ => None end
+  | I_UPDATEN k => match s with
+                   | x :: TPair a b :: r => option_map (fun t => t :: r) (ty_update_n k x (TPair a b))
+                   | _ => None
+                   end
   | I_LEFT t => match s with a :: r => Some (TOr a t :: r) | _ => None end
   | I_RIGHT t => match s with b :: r => Some (TOr t b :: r) | _ => None end
   | I_SOME => match s with a :: r => Some (TOption a :: r) | _ => None end
